@@ -6,5 +6,17 @@ CHECKS = {
   "technique": "TLA+ postcondition (Geom!Wind + Fill!InResult) evaluated by TLC on ndjson traces of the real library (trace validation), exhaustive winding ladder + TLC-certified general-position inputs under affine embeddings",
   "text": "TLC evaluates the region postcondition at every clear sample point of every recorded Execute (4 clip types x 4 fill rules x PreserveCollinear x ReverseSolution, builds plain and HI_PRECISION, magnitudes up to 2^61); the oracle (winding numbers, fill/clip tables, clearance, general-position certificate) is the specification, independent of the library. Exhaustive for the winding ladder, sampled for random inputs: assurance is bounded exploration with a complete oracle, not proof.",
   "note": TRUST},
+ "C02": {"level": "model_checking", "design_ref": "DESIGN.md section 5 / C02",
+  "technique": "TLC-enumerated complete scope (all 40 000 rectangle pairs on the 4x4 grid, GenRect.tla) replayed into the library; TLA+ cell-exact postcondition evaluated by TLC on the recorded traces",
+  "text": "Exhaustive for the scope the property names (every rectangle pair on the 4x4 grid x 4 clip types x 4 fill rules x PreserveCollinear x ReverseSolution x paths/tree = 5.8 M executions) and sampled for degenerate rectilinear walks at scales 1..2^13 (+2^52 offset); TLC decides every unit cell, the exact area and the vertex-coordinate clause with no tolerance.",
+  "note": TRUST},
+ "C03": {"level": "model_checking", "design_ref": "DESIGN.md section 5 / C03",
+  "technique": "TLA+ well-formedness predicates (PathOps.tla) evaluated by TLC on the raw solution paths recorded from the library (trace validation); re-Union idempotence as a two-call history",
+  "text": "Structural clauses are judged on every Execute of arbitrary and degenerate inputs up to 2^61; geometric clauses (no zero area, spike, proper crossing; orientation = nesting parity; collinearity; 2-unit vertex provenance; Union fixed point) are decided by TLC from the definitions on TLC-certified general-position and rectilinear inputs. Bounded exploration with a complete oracle.",
+  "note": TRUST + " Known finding S8 (re-Union of touching rings) is matched by the spec's Touching predicate."},
+ "C04": {"level": "model_checking", "design_ref": "DESIGN.md section 5 / C04",
+  "technique": "trace validation by TLC: PolyTree parent vector + rings recorded from the library, containment forest recomputed in TLA+ (PathOps!Depth/InsideRing) and compared",
+  "text": "For every recorded tree execution TLC compares the tree's rings with the paths execution (bag of canonical rings), recomputes each node's containment depth from geometry as an independent nesting oracle, and checks level/orientation alternation, child-inside-parent, sibling disjointness and area; inputs are deep nests, general-position polygons, ladders and rectilinear walks with touching holes.",
+  "note": TRUST},
 }
 NOT_YET = {("C%02d" % i): "check not built yet in this revision (work in progress, see DESIGN.md section 8)" for i in range(1, 21)}
